@@ -147,6 +147,11 @@ def run(ctx):
                 ok = pa.vfmt(a[1]).endswith(".sent_closing") and a[2][0] == "call" and a[2][1] == "core::option::Option::unwrap_or" and \
                     a[2][2][1] == ("const", "h3::proto::stream::StreamId::FIRST_REQUEST") and a[2][2][0][0] == "call" and \
                     a[2][2][0][1] == "core::option::Option::map" and pa.vfmt(a[2][2][0][2][0]).endswith(".last_accepted_stream")
+                if not ok and a[2][0] == "call" and a[2][1] == "core::option::Option::map_or" and len(a[2][2]) == 3:
+                    # `.map_or(FIRST_REQUEST, successor)`: the same closure (checked above) under the combined adapter
+                    ok = pa.vfmt(a[1]).endswith(".sent_closing") and pa.vfmt(a[2][2][0]).endswith(".last_accepted_stream") and \
+                        a[2][2][1] == ("const", "h3::proto::stream::StreamId::FIRST_REQUEST") and a[2][2][2][0] == "closure" and \
+                        a[2][2][2][1] == SV + "shutdown::{closure#0}::{closure#0}"
                 ctx.check(ok, "C08-c", so.key, "id = last_accepted.map(successor).unwrap_or(FIRST_REQUEST), guard state = sent_closing",
                           "server shutdown passes (%s, %s)" % (pa.vfmt(a[1]), pa.vfmt(a[2])[:200]), "")
     ctx.check(prog.const("h3::proto::stream::StreamId::FIRST_REQUEST") == 0, "C08-c", "h3::proto::stream::StreamId::FIRST_REQUEST", "= stream 0",
